@@ -136,7 +136,9 @@ CLAIMED = {
         technique="Lean 4 theorems over a hand-written lexer model + regenerated tables + differential correspondence",
         design="7/C11"),
     "C12": dict(
-        text="Theorems (Props/C12.lean): CRLF normalisation is the identity on CR-free text and inverts LF->CRLF; tokens carry no layout; the token list is the kept lexemes. "
+        text="Theorems (Props/C12.lean): CRLF normalisation is the identity on CR-free text and inverts LF->CRLF; tokens carry no layout; the token list is the kept lexemes; positions never influence "
+             "what is lexed, and a space, a tab, a complete block comment or a line comment inserted at any lexeme boundary of any input changes no token type and no token value of the rest "
+             "(blank_before_a_lexeme_changes_no_token, block_comment_..., line_comment_...: all inputs, all boundaries, any state of the `-` disambiguation). "
              "Layout changes vs emitted bytes of both targets: relayout oracle from the lexeme trace.",
         note=TB + "the parser's treatment of NEWLINE tokens is covered by correspondence and the relayout oracle, not by a theorem.",
         technique="Lean 4 theorems on the lexer model + relayout search from the model's lexeme trace",
